@@ -172,7 +172,7 @@ def main(argv=None):
         lines.append('  key=%s count=%d: %s' % (key, ent['count'], ent['witnesses'][0]['desc']))
     if m['unkeyed_count']:
         n_viol += m['unkeyed_count']
-        for w in m['unkeyed'][:3]:
+        for w in m['unkeyed'][:int(os.environ.get('VERIF_MAX_REPLAYS', '3'))]:
             path = write_replay(prop_id, w)
             viol_lines.append('VIOLATION property=%s replay=%s' % (prop_id, path))
             lines.append('  key=None: %s' % w['desc'])
